@@ -190,7 +190,7 @@ def _fuzz(args) -> Dict[str, Any]:
     script, variant, seed = args
     from .. import logger_drv as L
 
-    res, _ = L.run_schedule(script, None, seed=seed, p_stutter=0.1, fmts=tuple(variant["fmts"]), intervals=tuple(variant["intervals"]),
+    res, _ = L.run_schedule(script, None, seed=seed, p_stutter=variant.get("p_stutter", 0.1), fmts=tuple(variant["fmts"]), intervals=tuple(variant["intervals"]),
                             typemap=variant["typemap"], naming=variant.get("naming", "file"))
     res["judge"] = L.judge(res)
     return res
@@ -557,6 +557,11 @@ def run(tier: str, seed: int) -> Dict[str, Any]:
                                    "typemap": "sig" if (i + k) % 4 == 3 else "std", "stutters": None, "source": "fuzz",
                                    "naming": NAMINGS[(i + k) % 2]},
                               seed * 100003 + i * 17 + k))
+        # long waits: a thread that is polling (stop() waiting for the writer, the writer waiting for a request) is scheduled many
+        # times in a row before the other one moves - patience must not run out
+        for i, sc in enumerate(fscripts[: (12 if q else 80)]):
+            fjobs.append((sc, {"fmts": list(FORMAT_PAIRS[i % len(FORMAT_PAIRS)]), "intervals": [sim["i1"], sim["i2"]], "typemap": "std",
+                               "stutters": None, "source": "fuzz-long-waits", "naming": NAMINGS[i % 2], "p_stutter": 0.97}, seed * 100003 + 7919 + i))
         fuzzed = _pool_map(_fuzz, fjobs)
         for r, (sc, var, _) in zip(fuzzed, fjobs):
             r["behaviour"], r["variant"] = r["steps"], var
